@@ -33,7 +33,7 @@ func encoderConfigs(r *core.Run) []string {
 func c02(r *core.Run) {
 	r.Expl = "C02 (cgo / native builds interchangeable): for every build configuration (quick: cgo and CGO_ENABLED=0; thorough: also goprobe_noliblz4, goprobe_nolibzstd, CI tags) and every Encoder implementation, decides the sibling contract all implementations must share for their output to be the library's frame and nothing else: the caller's scratch buffer contributes no pre-existing bytes (append-style APIs get a zero-length destination; otherwise exactly the library-reported prefix of the buffer is written), the buffer is resliced only under a capacity guard, exactly one dst.Write on success whose count is what Compress reports, Decompress compares the count read from src with len(in) before decoding, returns the decoded length, and never takes the address of element 0 of a possibly empty parameter. NOT decided: that liblz4/libzstd and pierrec/klauspost produce mutually readable frames (third-party format behaviour), nor any actual cross-build read-back."
 	r.Floor = 26
-	r.Rules = append(r.Rules, "encoder-contract: per-path event automaton over Compress/Decompress of every implementation in every build configuration", "codec-options: frozen table of third-party codec options that do not restrict which frames are produced / accepted")
+	r.Rules = append(r.Rules, "encoder-contract: per-path event automaton over Compress/Decompress of every implementation in every build configuration", "codec-options: frozen table of third-party codec options that do not restrict which frames are produced / accepted", "read-path: the storage reader picks the decoder by the stored encoder type alone")
 	for _, cfg := range encoderConfigs(r) {
 		p := r.ProgFor(cfg, "./pkg/goDB/encoder/...")
 		for _, rel := range encoderImpls {
@@ -41,6 +41,10 @@ func c02(r *core.Run) {
 			ruleCodecOptions(r, p, rel)
 		}
 	}
+	// which decoder reads a block is decided by the encoder type stored with the block and nothing else: sizes and
+	// ratios differ between the cgo and the native codecs, so a reader that also looks at them treats the same flows
+	// differently depending on which build wrote them
+	ruleReadPath(r, r.ProgFor("cgo", "./pkg/goDB/storage/..."))
 }
 
 func c07(r *core.Run) {
